@@ -147,20 +147,26 @@ CONTRACTS: dict[str, type] = {}
 LEMMAS: dict[str, type] = {}
 
 
-def contract(target: str):
-    """Bind a contract class to `module:qualname` of a repository function."""
+def contract(target: str, case: str | None = None):
+    """Bind a contract class to `module:qualname` of a repository function.
+
+    `case` names an additional specification case of the same function (its own
+    requires/ensures/invariants); the un-named contract is the one callers use by default.
+    """
 
     def deco(cls):
         cls.target = target
+        cls.key = target if case is None else f"{target}#{case}"
         for attr, default in (("shapes", {}), ("requires", {}), ("ensures", {}),
                               ("raises", {}), ("loops", {}), ("result", None),
                               ("modifies", []), ("inline", []), ("ghost", {}),
                               ("self_shape", None), ("pure", False), ("regimes", {}),
                               ("mode", "real"), ("by_contract", None), ("opaque_calls", {}),
-                              ("max_paths", 4000)):
+                              ("max_paths", 4000), ("ghost_seqs", {}), ("use", {}),
+                              ("instantiate", {}), ("native_opaque", {})):
             if not hasattr(cls, attr):
                 setattr(cls, attr, default)
-        CONTRACTS[target] = cls
+        CONTRACTS[cls.key] = cls
         return cls
 
     return deco
